@@ -24,17 +24,21 @@ def cfg_text(bug="none", invs=("OperationalIsDeclarative", "SymmetricCoefficient
             + "".join(f"INVARIANT {i}\n" for i in invs))
 
 
-def radial_text(r_units, rng):
+def radial_text(r_units, rng, prefer=None):
     nm = [x * U / 10 for x in r_units]                       # nm
     lits = [("%.4f" % v).rstrip("0") for v in nm]
-    style = rng.randrange(4)
+    style = rng.randrange(5) if prefer is None else prefer
     order = list(lits)
+    equi = len(r_units) >= 2 and len({b - a for a, b in zip(r_units, r_units[1:])}) == 1
+    if style == 4 and equi:       # range(start, stop, step) with the stop half a step beyond the last radius
+        step = nm[1] - nm[0]
+        return f"range({lits[0]}, {('%.5f' % (nm[-1] + step / 2)).rstrip('0')}, {('%.4f' % step).rstrip('0')})"
     if style == 1:
         rng.shuffle(order)
         return "(" + ", ".join(order) + ("," if len(order) == 1 else "") + ")"
     if style == 2 and len(order) > 1:
         return ", ".join(reversed(order))
-    if style == 3 and len(r_units) >= 2 and len({b - a for a, b in zip(r_units, r_units[1:])}) == 1:
+    if style == 3 and equi:
         return f"linspace({lits[0]}, {lits[-1]}, {len(lits)})"
     return "[" + ", ".join(order) + "]"
 
@@ -57,7 +61,8 @@ def run(ctx: Ctx):
         ctx.mutant("Shells", ctx.cfg(f"sh_{bug}.cfg", cfg_text(bug, ["OperationalIsDeclarative"], 3)), "OperationalIsDeclarative")
     radials = [c for T in (2, 3, 4) for c in itertools.combinations(POOL, T)]
     rng.shuffle(radials)
-    radials = radials[: (90 if thorough else 14)]
+    radials = radials[: (90 if thorough else 12)]
+    radials += [c for c in [(4, 10), (6, 16, 26), (2, 4, 6)] if c not in radials]       # equidistant ones: range(...) / linspace(...) texts exist for them
     dirs = [("ico", 4), ("ico", 12), ("cube3D", 9), ("randomS", 7), ("ico", 20), ("cube3D", 26)]
     if thorough:
         dirs += [("ico", 5), ("ico", 7), ("ico", 13), ("ico", 42), ("cube3D", 8), ("cube3D", 13), ("randomS", 4), ("randomS", 12),
@@ -87,8 +92,11 @@ def run(ctx: Ctx):
             cases.append(dict(r=list(r), nO=N, adj=grids[(alg, N)]["adj"]))
             meta.append((r, alg, N))
     expect = ctx.evaluate("Shells_Eval", cases, name="shells", timeout=1800)
+    n_equi = 0
     for (r, alg, N), ex in zip(meta, expect):
-        text = radial_text(r, rng)
+        equi = len({b - a for a, b in zip(r, r[1:])}) == 1
+        n_equi += equi
+        text = radial_text(r, rng, prefer=(4 if n_equi % 2 else 3) if equi else None)      # equidistant grids alternate between range(...) and linspace(...)
         key0 = f"PositionGrid(o='{alg}_{N}', radii(0.05A units)={list(r)})"
         ctx.count(1, nontrivial_key=(r, alg, N))
         at = grids[(alg, N)]
